@@ -32,6 +32,8 @@ WITNESSES = [
     ("w-move-self", "1=2", "MOVE:1:1", "0,0,0,0,0,0"),
     ("w-move-create-create", "1=2,2=2", "MOVE:1:3,MOVE:2:3", "0,0,1,1,0,1,0,1,0,1,0,1,0,1,0,1"),
     ("w-self-move-last", "2=1", "MOVE:2:2,DEL:2", "0,0,0,0,1,0,0,0,1,1,0,0,0,1,0,0,0,1,0,1,0,1"),
+    # two observers around a move: LLEN of the source after the pop, LLEN of the destination before the push, in real-time order
+    ("w-move-observed", "1=2,2=1", "MOVE:1:2,LEN:1,LEN:2", "0,0,0,1,1,1,2,2,2,0,0,0,0,1,1,2,0,1,2"),
     ("w-move-pop-orphan", "2=1", "MOVE:2:2,POP:2", "1,0,0,0,1,0,0,1,1"),
     ("w-stable-push-push", "1=1", "PUSH:1,PUSH:1", "0,1,0,1,0,1,0,1"),
     # the same on keys whose value has been evicted to Pebble: the first locker reloads it
@@ -107,7 +109,7 @@ def parse_out(text):
             t = l.split()
             d = dict(x.split("=", 1) for x in t[2:] if "=" in x)
             d["ambiguous"] = "AMBIGUOUS" in t
-            d["line"] = " ".join(x for x in t[2:] if x != "AMBIGUOUS")
+            d["line"] = " ".join(x for x in t[2:] if x != "AMBIGUOUS" and not x.startswith("rt="))
             res[t[1]] = d
     return res
 
@@ -142,12 +144,27 @@ def run_impl(d, scns, tag, shards=8):
     return res
 
 
-def sequential_outcomes(d, scn):
-    """outcomes of the model when the threads run one after the other, for every order"""
+def sequential_outcomes(d, scn, rt=None):
+    """outcomes of the model when the threads run one after the other, for every order that respects the real-time
+    order of the history (rt: 't:first:done,...' from the implementation run - a command that had replied before
+    another one was invoked comes first)"""
     (i, v, c, s) = scn
     n = len(c.split(","))
+    first, done = {}, {}
+    if rt and rt != "-":
+        for x in rt.split(","):
+            a, f, dn = x.split(":")
+            first[int(a)], done[int(a)] = int(f), int(dn)
+
+    def respects(perm):
+        pos = {t: k for k, t in enumerate(perm)}
+        for a in range(n):
+            for b in range(n):
+                if a != b and done.get(a, -1) >= 0 and first.get(b, -1) >= 0 and done[a] < first[b] and pos[a] > pos[b]:
+                    return False
+        return True
     scns = []
-    for j, perm in enumerate(itertools.permutations(range(n))):
+    for j, perm in enumerate(p for p in itertools.permutations(range(n)) if respects(p)):
         sched = ",".join(str(t) for t in perm for _ in range(8))
         scns.append(("%s.p%d" % (i, j), v, c, sched))
     p = os.path.join(d, "seq.scn")
@@ -291,7 +308,7 @@ def run(pid, tier, seed, replay=None):
                 verdict = ("CONC/deadlock:" + klass(c, v, io["waiting"]), "threads %s are blocked in a lock, every other thread has finished" % io["waiting"])
                 stats["deadlocks"] += 1
             elif io["waiting"] == "-" and io["notdone"] == "-":
-                seqs = sequential_outcomes(d, scn)
+                seqs = sequential_outcomes(d, scn, io.get("rt"))
                 if (io["vals"], io["replies"]) not in seqs:
                     verdict = ("CONC/not-linearizable:" + cls,
                                "final lengths %s with replies %s; sequential orders give %s" % (io["vals"], io["replies"], sorted(seqs)[:4]))
@@ -324,6 +341,15 @@ def run(pid, tier, seed, replay=None):
                 out.violation(replay_obj, nofail=True)
             if len(samples) < 3:
                 samples.append(["keys " + v, "threads " + c, "grants " + s[:60], "outcome " + io["line"]])
+        if pid == "C05" and not replay:
+            # exploration of the windows between two schedule points (real goroutines released together)
+            rc, o = C.sh([C.VH, "concstress", "--rounds", "12000" if tier == "thorough" else "3000"], env=C.go_env(), timeout=600)
+            line = next((l for l in o.splitlines() if l.startswith("CSTRESS")), "CSTRESS crashed " + o[-300:].replace("\n", " | "))
+            stats["concstress"] = line
+            if line.split()[1] != "ok":
+                out.violation({"property": pid, "signature": "CONC/stress", "what": line.split("what=", 1)[-1].replace("_", " "),
+                               "readable": ["vh concstress: 8 goroutines RPUSH a new key at the same moment (LLEN must be 8, replies 1..8), then 4 producers and 4 consumers on one list that is emptied, unlinked and re-created all the time (every element popped exactly once or still there)"],
+                               "replay_cmd": ".cache/bin/vh concstress"})
         if pid == "C06" and not replay:
             run_stalls(pid, out, d, known, confirmed, pf, stats)
             run_gcstress(pid, out, stats, range(seed * 100, seed * 100 + (24 if tier == "thorough" else 4)))
